@@ -374,6 +374,10 @@ def rule_PF1(ctx, rep):
             continue
         fb = [c for c in ast.walk(e) if isinstance(c, ast.Call) and 'from_bytes' in norm(c.func)]
         if not fb:
+            if isinstance(e, ast.BinOp) and isinstance(e.op, ast.Mod) and is_bound(e.right):
+                nprod += 1
+                rep.bad('PF1', call, g, f'values `{norm(e)[:80]}` are reduced modulo the bound but are not separate blocks of the digest: a value depends on '
+                        'more than its own byte_length bytes (on how many values were requested)')
             continue
         nprod += 1
         if isinstance(e, ast.BinOp) and isinstance(e.op, ast.Mod) and is_bound(e.right) and any(c is x for c in fb for x in ast.walk(e.left)):
@@ -419,10 +423,11 @@ def rule_PF1(ctx, rep):
     for r in rets:
         for cx, v in sem.guarded_values(call, r.value, r, pm, ctx=sem._ctx_of(call, r, pm), follow=False):
             rv.add((tuple(sorted(x for x in cx if 'None' in x[0] and npar in x[0])), norm(v)))
-    keys = {k for k, v in rv}
     scal = [v for k, v in rv if k and k[0][1] is True]
     seq = [v for k, v in rv if k and k[0][1] is False]
-    if len(rv) == 2 and len(scal) == 1 and len(seq) == 1 and scal[0] == f'{seq[0]}[0]':
+    # a single value exactly when n is None (then the first element of what is returned otherwise); returns that do not depend on
+    # `n is None` at all are the array case (n was replaced by prod(shape) there)
+    if scal and seq and all(any(sv == f'{qv}[0]' for qv in seq) for sv in scal) and not any(qv.endswith('[0]') for qv in seq):
         rep.ok('PF1', call, rets[-1], 'scalar for n=None, sequence/array otherwise')
     else:
         rep.bad('PF1', call, rets[-1] if rets else call.qualname, f'return value is not `x[0] if {npar} is None else x`', call.node)
@@ -466,13 +471,30 @@ def rule_G1(ctx, rep):
             rep.bad('G1', fn, fn.qualname, 'the contributions are not combined with the group operation', fn.node)
         # exponent: lambda_i * share, reduced modulo the characteristic for lifted fields
         mul = [b for b in iter_nodes(fn.node) if isinstance(b, ast.BinOp) and isinstance(b.op, ast.Mult) and 'lambda_i' in norm(b)]
-        if mul:
+        unwrapped = [b for b in mul if any(isinstance(o, ast.Call) and isinstance(o.func, ast.Name) and o.func.id == 'int' for o in (b.left, b.right))]
+        if unwrapped:
+            rep.bad('G1', fn, unwrapped[0], 'the Lagrange coefficient and the share are converted to integers before they are multiplied: the integer product of the '
+                    'encodings is not the field product when the exponent field is an extension field (m >= q parties), so the contributions do not combine to a^x')
+        elif mul:
             rep.ok('G1', fn, mul[0], 'local exponent = Lagrange coefficient times own share')
         else:
             rep.bad('G1', fn, fn.qualname, 'the local exponent is not (Lagrange coefficient) * (own share)', fn.node)
-        sub = [i for i in iter_nodes(fn.node) if isinstance(i, ast.If) and 'subfield is not None' in norm(i.test)]
-        if sub and any(isinstance(x, ast.AugAssign) and isinstance(x.op, ast.Mod) and 'characteristic' in norm(x.value) for s in sub for x in ast.walk(s)):
-            rep.ok('G1', fn, sub[0].test, 'exponents from a lifted field are reduced modulo the characteristic')
+        from . import cond, routes
+        reds = []
+        for x in iter_nodes(fn.node):
+            mod = None
+            if isinstance(x, ast.AugAssign) and isinstance(x.op, ast.Mod):
+                mod = x.value
+            elif isinstance(x, ast.Assign) and isinstance(x.value, ast.BinOp) and isinstance(x.value.op, ast.Mod) and norm(x.value.left) == norm(x.targets[0]):
+                mod = x.value.right
+            if mod is not None and norm(routes.xp(fn, mod, x, pm)).endswith('.characteristic'):
+                cx = cond.context(fn, x, pm)
+                # executed only for lifted fields: the context forces `<x>.subfield is not None`
+                lifted = [a for a in cond.atoms_of(cx) if 'subfield' in a and 'None' in a]
+                if lifted and not cond.satisfiable(cond.conj([cx, cond.atom(lifted[0])])):
+                    reds.append(x)
+        if reds:
+            rep.ok('G1', fn, reds[0], 'exponents from a lifted field are reduced modulo the characteristic')
         else:
             rep.bad('G1', fn, fn.qualname, 'exponents coming from a lifted (extension) field are not reduced modulo the characteristic', fn.node)
         if fn.kind == 'pc':
